@@ -201,13 +201,21 @@ pub fn run_prop(prop: &Prop, tier: Tier, only_part: Option<&str>) -> i32 {
     });
   }
 
-  if let Some(m) = machinery {
-    eprintln!("MACHINERY ERROR: {m}");
-    return 2;
+  // a machinery error in a later part does not erase a violation that an
+  // earlier part found and that replays deterministically: verdicts first
+  let known = load_known();
+  if let Some(m) = &machinery {
+    let earlier_violation = outcomes.iter().any(|po| {
+      po.stats.violations.iter().any(|(_, v)| !known.iter().any(|f| f.property == prop.id && f.status == "known" && f.signature == v.signature))
+    });
+    if !earlier_violation {
+      eprintln!("MACHINERY ERROR: {m}");
+      return 2;
+    }
+    eprintln!("note: {m} (a later part ended in a machinery error; reporting what the parts before it found)");
   }
 
   // ---- verdicts
-  let known = load_known();
   let mut exit = 0;
   let mut known_lines: BTreeMap<String, String> = BTreeMap::new();
   let mut unknown: BTreeMap<String, (String, Vec<u32>, Violation)> = BTreeMap::new();
